@@ -71,6 +71,7 @@ class Recorder:
         self.unknown_count = 0
         self.known = {}
         self.known_count = collections.Counter()
+        self.violation_kinds = collections.Counter()
         self.extra = {}
         self.inconclusive = []
 
@@ -125,6 +126,7 @@ class Recorder:
             v['traceback'] = ''.join(traceback.format_exception(type(exc), exc, exc.__traceback__))[-3000:]
             v['exc_type'] = type(exc).__name__
         fid = self._classify(self.prop, v) if self._classify else None
+        self.violation_kinds['%s:%s -> %s' % (monitor, kind, fid or 'UNKNOWN')] += 1
         if fid:
             self.known_count[fid] += 1
             lst = self.known.setdefault(fid, [])
@@ -166,6 +168,7 @@ def merge(dumps):
             out['known'].setdefault(k, [])
             out['known'][k] = (out['known'][k] + v)[:MAX_KNOWN_PER_FINDING]
         out['known_count'].update(d['known_count'])
+        out['violation_kinds'].update(d.get('violation_kinds', {}))
         for k, v in d['extra'].items():
             if isinstance(v, (int, float)) and isinstance(out['extra'].get(k), (int, float)) and not isinstance(v, bool):
                 if k.startswith('max_'):
